@@ -12,6 +12,7 @@ tmgr scheduler (state advance), Agent_0._proxy_input_cb/_proxy_output_cb (queue
 to queue) and agent scheduler + executor (see `execute`) do to a task dict.
 """
 import os
+import sys
 import types
 import tempfile
 import threading as mt
@@ -19,9 +20,13 @@ import threading as mt
 from . import boot
 from .hollow import HollowSession, HollowPmgr, hollow_tmgr, real_pilot, comp_cfg
 
+import radical.utils           as ru
 import radical.pilot.states    as rps
 import radical.pilot.constants as rpc
 import radical.pilot.utils     as rpu
+import radical.pilot.utils.component as rpu_component
+
+_ru_atfork = sys.modules[ru.atfork.__module__]
 
 from radical.pilot.tmgr.scheduler.base          import TMGRSchedulingComponent
 from radical.pilot.tmgr.staging_input.default   import Default as TmgrIn
@@ -47,6 +52,7 @@ def _build(cls, base, session, uid):
 class Pipe(object):
 
     def __init__(self, client_dir, remote_dir):
+        self._n_comp = len(rpu_component._components)
         self.sess  = HollowSession(sandbox=client_dir)
         self.net   = self.sess.net
         self.tmgr  = hollow_tmgr(self.sess)
@@ -73,6 +79,16 @@ class Pipe(object):
         # the tmgr input stager learns pilots the way it does in production
         self.tmgr.publish(rpc.CONTROL_PUBSUB, {'cmd': 'add_pilots',
                           'arg': {'pilots': [self.pilot], 'tmgr': self.tmgr.uid}})
+
+    def close(self):
+        """forget this case's objects in two module-level registries (memory
+        and fork speed, nothing else): BaseComponent.__init__ lists every
+        component for its at-fork hook, TaskManager.initialize registers three
+        bound methods with radical.utils.atfork"""
+        del rpu_component._components[self._n_comp:]
+        for lst in (_ru_atfork._prepare_call_list, _ru_atfork._parent_call_list,
+                    _ru_atfork._child_call_list):
+            lst[:] = [f for f in lst if getattr(f, '__self__', None) is not self.tmgr]
 
     # -- queues ----------------------------------------------------------------
     def url(self, qname):
